@@ -19,7 +19,7 @@ def check_purity(idx: Index, rep: Report, an: Analyzer, func: FunctionInfo,
                  protected: Optional[Sequence[str]] = None,
                  allowed: Dict[str, Sequence[Tuple[str, ...]]] = None,
                  rule: str = "K1.purity", self_class: Optional[ClassInfo] = None,
-                 what: str = "", label: Optional[str] = None) -> List[Event]:
+                 what: str = "", label: Optional[str] = None, fresh_result: bool = False) -> List[Event]:
     """One obligation per (function, protected parameter).  `allowed[param]` lists access-path prefixes that
     are documented result channels (writes below them are not violations)."""
     allowed = allowed or {}
@@ -49,6 +49,16 @@ def check_purity(idx: Index, rep: Report, an: Analyzer, func: FunctionInfo,
                           what=what or f"parameter '{p}' must be left unchanged",
                           reason=e.describe())
             bad.append(e)
+    if fresh_result:
+        aliased = sorted({o[1] for o in fa.returned if is_P(o) and o[2] == () and o[1] in params})
+        if aliased:
+            import ast as _ast
+            rets = [n for n in _ast.walk(func.node) if isinstance(n, _ast.Return)]
+            rep.violation("K1.fresh-result", where, rets[0] if rets else func.node, text=f"{qual} may return its input {', '.join(aliased)}",
+                          what="an out-of-place operation returns a new object, never its input",
+                          reason=f"{qual} can return the very object passed as {', '.join(aliased)}: modifying the result then modifies the input")
+        else:
+            rep.ok("K1.fresh-result", where, func.node, text=f"{qual} returns a new object", what="an out-of-place operation returns a new object, never its input")
     if not fa.complete:
         rep.info(rule, where, func.node, text=f"{qual}: analysis cut", reason="call depth cut at " + ", ".join(sorted(set(fa.cuts))[:5]))
     return bad
